@@ -2,9 +2,12 @@ import Driver.Proto
 import Driver.OpsH
 import Driver.NttH
 import Driver.SalsaH
+import Driver.RandBytesH
+import Driver.SettersH
+import Driver.SerialH
 namespace Driver
 
-def allHandlers : List (String × Handler) := opsHandlers ++ nttHandlers ++ nttHandlers2 ++ tabHandlers ++ salsaHandlers
+def allHandlers : List (String × Handler) := opsHandlers ++ nttHandlers ++ nttHandlers2 ++ tabHandlers ++ salsaHandlers ++ rbHandlers ++ settersHandlers ++ serialHandlers
 
 def findHandler (op : String) : Option Handler := (allHandlers.find? (·.1 == op)).map (·.2)
 
